@@ -142,6 +142,8 @@ def make_hooks(P, f, brow, interp_calls=True):
 def run(P, R, tier):
     R.assume('S3: HilbertRtree rows and queries are (lb_0..lb_{n-1}, ub_0..ub_{n-1}); queries have lb <= ub')
     R.assume('S4: IEEE comparisons with NaN are false (numba nopython)')
+    from rules import common as _common
+    _common.no_fastmath(P, R, 'C03.f', ['spatialpandas.spatialindex'])
     NR = P.cls(f'{MOD}._NumbaRtree')
     HR = P.cls(f'{MOD}.HilbertRtree')
     meth = {k: v[1] for k, v in NR.members.items() if v[0] == 'func'}
